@@ -74,6 +74,50 @@ def linmap(rd, T):
     return rd.u.reshape(ncol, -1).T.copy()  # (3 ns, ncol)
 
 
+class _BasisGen:
+    """Stand-in for numpy's Generator: the k-th standard-normal variate requested (in request order, flattened) is 1, all
+    others 0.  Makes no assumption on how many arrays are requested or on their shapes."""
+
+    def __init__(self, k):
+        self.k = k
+        self.offset = 0
+
+    def standard_normal(self, size=None):
+        shape = () if size is None else (tuple(size) if hasattr(size, "__len__") else (int(size),))
+        n = int(np.prod(shape)) if shape else 1
+        a = np.zeros(n)
+        if self.offset <= self.k < self.offset + n:
+            a[self.k - self.offset] = 1.0
+        self.offset += n
+        return a.reshape(shape) if shape else float(a[0])
+
+
+def generator_linear_map(call):
+    """The linear map (outputs x variates) of `call()` -> flat output, seen through numpy's generator, whatever the internal layout.
+    None when the call does not draw through Generator.standard_normal."""
+    saved = np.random.default_rng
+
+    def one(k):
+        g = _BasisGen(k)
+        np.random.default_rng = lambda *a, **kw: g
+        try:
+            out = np.array(call(), dtype="double").ravel().copy()
+        finally:
+            np.random.default_rng = saved
+        return out, g.offset
+
+    try:
+        u0, K = one(-1)
+    except AttributeError:
+        return None
+    if K == 0 or np.abs(u0).max() > 0:
+        return None
+    G = np.zeros((len(u0), K))
+    for k in range(K):
+        G[:, k], _ = one(k)
+    return G
+
+
 class _FakeGen:
     """Stand-in for numpy's Generator: hands out prepared arrays in call order, checking the requested shapes."""
 
@@ -290,17 +334,21 @@ def main(run):
         # ---------------- oracle on the implementation: public API only
         A = linmap(rd, T)
         covI = A @ A.T
+        # the path without `randn`: whatever the layout of the requests to the generator, two snapshots must be two independent
+        # copies of the canonical ensemble (covariance kron(1_2, C)); the `randn` layout itself is only a counted observation
+        def _two_snapshots():
+            rd.run(T, number_of_snapshots=2, random_seed=3)
+            return rd.u
+        G2 = generator_linear_map(_two_snapshots)
+        cov_gen = None if G2 is None else G2 @ G2.T
+        if G2 is None:
+            run.count("oracle-rd-generator-path: not observable through Generator.standard_normal", section="oracle")
         A_gen = linmap_via_generator(rd, T)
-        run.count("oracle-rd-generator-path", section="oracle")
-        if A_gen is None or not np.array_equal(A_gen, A):
-            run.violation("RandomDisplacements.run(randn=None)", "generator-wiring",
-                          "displacements obtained through the random generator differ from those obtained through `randn` for the same variates", info0)
-        f_before = np.array(rd.frequencies).copy()
+        run.count("observation: generator requests have the layout of `randn`: %s" % (A_gen is not None and np.array_equal(A_gen, A)))
+        # frequencies = frequencies must leave the ensemble alone (checked below against the canonical covariance)
         rd.frequencies = rd.frequencies
-        run.count("oracle-rd-frequencies-roundtrip", section="oracle")
-        if np.abs(np.array(rd.frequencies) - f_before).max() > 1e-12 * max(1.0, np.abs(f_before).max()) or \
-                np.abs(linmap(rd, T) - A).max() > 1e-12 * max(np.abs(A).max(), 1e-300):
-            run.violation("RandomDisplacements.frequencies", "setter-getter-roundtrip", "frequencies = frequencies changes the sampler", info0)
+        A_rt = linmap(rd, T)
+        cov_rt = A_rt @ A_rt.T
         rd.run_correlation_matrix(T)
         uu, uui = rd.uu.copy(), rd.uu_inv.copy()
         rd.run_d2f()
@@ -321,6 +369,17 @@ def main(run):
         if near_cut:
             run.count("oracle-skip: a mode sits on the cutoff", section="oracle")
         else:
+            if cov_gen is not None:
+                run.count("oracle-rd-generator-path", section="oracle")
+                if np.abs(cov_gen - np.kron(np.eye(2), C)).max() > 1e-8 * scale:
+                    run.violation("RandomDisplacements.run(randn=None)", "generator-path-covariance",
+                                  "two snapshots drawn through the random generator do not have covariance kron(1, C) with the canonical C "
+                                  "(max deviation %.3g, scale %.3g)" % (np.abs(cov_gen - np.kron(np.eye(2), C)).max(), scale), info0)
+            run.count("oracle-rd-frequencies-roundtrip", section="oracle")
+            if np.abs(cov_rt - C).max() > 1e-8 * scale:
+                run.violation("RandomDisplacements.frequencies", "setter-getter-roundtrip",
+                              "after frequencies = frequencies the sampler's covariance differs from the canonical one by %.3g (scale %.3g)" % (
+                                  np.abs(cov_rt - C).max(), scale), info0)
             run.count("oracle-rd-covariance", section="oracle")
             if np.abs(covI - C).max() > 1e-8 * scale:
                 run.violation("RandomDisplacements.run", klass, "covariance A.A^T of the sampler differs from the canonical covariance by %.3g (scale %.3g; units %s)" % (
@@ -464,49 +523,44 @@ def main(run):
         for k_, (label, act) in enumerate(steps):
             act()
             T = [300.0, 150.0, 600.0, 50.0, 900.0, 300.0, 20.0, 450.0][k_ % 8]
-            nsnap = 3
-            seed_ = 11 + k_
-            ph.generate_displacements(number_of_snapshots=nsnap, random_seed=seed_, temperature=T)
-            d_api = np.array(ph.displacements).copy()
-            rd_used = ph.random_displacements
-            A_used = linmap(rd_used, T)
-            cov_used = A_used @ A_used.T
+            def _gen_with(obj):
+                def call():
+                    obj.generate_displacements(number_of_snapshots=1, temperature=T)
+                    return obj.displacements
+                return call
+            G_api = generator_linear_map(_gen_with(ph))
             # fresh object in the current state
             fresh = Phonopy(cell, supercell_matrix=smat, primitive_matrix="P", log_level=0)
             fresh.masses = ph.masses
             if ph.nac_params is not None:
                 fresh.nac_params = ph.nac_params
             fresh.force_constants = np.array(ph.force_constants).copy()
-            fresh.generate_displacements(number_of_snapshots=nsnap, random_seed=seed_, temperature=T)
-            d_fresh = np.array(fresh.displacements).copy()
-            A_fresh = linmap(fresh.random_displacements, T)
-            cov_fresh = A_fresh @ A_fresh.T
-            info = dict(cell=name, smat=np.array(smat).tolist(), step=k_, after=label, T=T, random_seed=seed_,
-                        history=[st[0] for st in steps[:k_ + 1]])
-            scale = max(np.abs(cov_fresh).max(), 1e-300)
+            G_fresh = generator_linear_map(_gen_with(fresh))
+            info = dict(cell=name, smat=np.array(smat).tolist(), step=k_, after=label, T=T, history=[st[0] for st in steps[:k_ + 1]])
             run.case(("seq", name, np.array(smat).tolist(), k_, label), nontrivial=k_ > 0)
             run.count("api-sequence step: %s" % label)
+            if G_api is None or G_fresh is None:
+                run.count("oracle-api-sequence: generate_displacements not observable through Generator.standard_normal", section="oracle")
+                continue
+            cov_api, cov_fresh = G_api @ G_api.T, G_fresh @ G_fresh.T
+            scale = max(np.abs(cov_fresh).max(), 1e-300)
             run.count("oracle-api-sequence-vs-fresh-object", section="oracle")
-            if np.abs(cov_used - cov_fresh).max() > 1e-9 * scale:
-                dg = np.diag(cov_used).reshape(-1, 3).sum(axis=1) / np.maximum(np.diag(cov_fresh).reshape(-1, 3).sum(axis=1), 1e-300)
+            if np.abs(cov_api - cov_fresh).max() > 1e-9 * scale:
+                dg = np.diag(cov_api).reshape(-1, 3).sum(axis=1) / np.maximum(np.diag(cov_fresh).reshape(-1, 3).sum(axis=1), 1e-300)
                 run.violation("Phonopy.generate_displacements(temperature)", "after-" + label,
-                              "the RandomDisplacements object used by generate_displacements has covariance A.A^T differing from that of a fresh "
-                              "Phonopy object in the current state by %.3g (scale %.3g); MSD ratio per atom %s" % (
-                                  np.abs(cov_used - cov_fresh).max(), scale, np.round(dg, 3).tolist()), info)
-            elif np.abs(d_api - d_fresh).max() > 1e-10 * max(np.abs(d_fresh).max(), 1e-300):
-                run.violation("Phonopy.generate_displacements(temperature)", "after-" + label,
-                              "displacements generated with the same random_seed differ from those of a fresh Phonopy object in the current state by %.3g" % (
-                                  np.abs(d_api - d_fresh).max()), info)
+                              "the displacements generate_displacements produces (as a linear image of the generator's variates) have covariance "
+                              "differing from that of a fresh Phonopy object in the current state by %.3g (scale %.3g); MSD ratio per atom %s" % (
+                                  np.abs(cov_api - cov_fresh).max(), scale, np.round(dg, 3).tolist()), info)
             # independent dense oracle whenever the current force constants are symmetric (then D(q) needs no Hermitisation)
             fcn = np.array(ph.force_constants)
             if np.abs(fcn - fcn.transpose(1, 0, 3, 2)).max() < 1e-10 * max(1.0, np.abs(fcn).max()):
                 C, rank, fsc = dense_oracle(ph, T, 0.01, "quantum")
                 if np.abs(fsc - 0.01).min() > 1e-6:
                     run.count("oracle-api-sequence-vs-dense-covariance", section="oracle")
-                    if np.abs(cov_used - C).max() > 1e-8 * max(np.abs(C).max(), 1e-300):
+                    if np.abs(cov_api - C).max() > 1e-8 * max(np.abs(C).max(), 1e-300):
                         run.violation("Phonopy.generate_displacements(temperature)", "after-" + label + "-dense",
-                                      "covariance of the sampler used by generate_displacements differs from the canonical covariance of the current "
-                                      "supercell by %.3g (scale %.3g)" % (np.abs(cov_used - C).max(), np.abs(C).max()), info)
+                                      "covariance of the displacements generate_displacements produces differs from the canonical covariance of the "
+                                      "current supercell by %.3g (scale %.3g)" % (np.abs(cov_api - C).max(), np.abs(C).max()), info)
 
     # =========================================================== thermal displacements
     ntd = 72 if thorough else 8
@@ -545,7 +599,8 @@ def main(run):
         ph.run_thermal_displacements(temperatures=temps, freq_min=fmin, freq_max=fmax, direction=direction)
         tdp = ph.thermal_displacements.thermal_displacements
         # `direction` is given in reduced coordinates of the primitive cell; the class gets the Cartesian unit vector
-        pdir = ph.thermal_displacements._projection_direction
+        pdir = np.dot(direction, ph.primitive.cell)  # documented: direction in reduced coordinates -> Cartesian, normalised
+        pdir = pdir / np.linalg.norm(pdir)
         npa = len(ph.primitive)
         nb = 3 * npa
         nq = len(fr)
@@ -631,14 +686,17 @@ def main(run):
             # ---- model request: the Bose factor is a parameter; the model applies the guard read from the source
             with np.errstate(all="ignore"):
                 if T > tguard:
-                    nbe = np.array([[tm._get_population(fr[iq, nu], T) if fr[iq, nu] > 0 else 0.0 for nu in range(nb)] for iq in range(nq)])
+                    try:
+                        nbe = np.array([[tm._get_population(fr[iq, nu], T) if fr[iq, nu] > 0 else 0.0 for nu in range(nb)] for iq in range(nq)])
+                    except AttributeError:
+                        nbe = nref  # the code's own Bose factor is not accessible: the documented one
                 else:
                     nbe = nref
             nbe = np.nan_to_num(np.where(valid, nbe, 0.0), nan=0.0, posinf=0.0, neginf=0.0)
             if it in (1, 2, 3, 5):
                 lines.append("tdm %d %d %s %s %s %s %s %d %s %s %s %s %s %s %s %s" % (
                     npa, nq, Q(unit), Q(w), Q(tguard), Q(T), Q(fmin), 0 if fmax is None else 1, Q(0.0 if fmax is None else fmax),
-                    Q(1e-10), _flat(fr), _flatc(np.array(ev)), _flat(m_amu), _flat(nbe), _flat(tdm._ANinv), _flat(pdir)))
+                    Q(1e-10), _flat(fr), _flatc(np.array(ev)), _flat(m_amu), _flat(nbe), _flat(np.linalg.inv(AN)), _flat(pdir)))
                 meta.append(("tdm", dict(info, T=T), dict(U=U[it], Uc=Uc[it], td=td[it], tdp=tdp[it])))
 
     # =========================================================== correspondence with the Lean model
@@ -686,7 +744,6 @@ def main(run):
             run.count("partition-certificates", section="correspondence")
             if line != "true":
                 run.broke("correspondence", "partition certificate fails on categorize_commensurate_points output", info)
-                run.violation("categorize_commensurate_points", "partition", "ii/ij do not partition the commensurate points", info)
         elif kind == "tdm":
             if line == "assert-imag":
                 run.broke("correspondence", "model: imaginary-part assertion fails where the implementation passed", info)
